@@ -17,9 +17,14 @@ pub enum Mode {
     Dynamic,
     /// dynamic Huffman (level 9)
     Best,
+    /// deflate stream cut into several stored blocks (what a packer with a small pending buffer, or one that caps its stored
+    /// blocks, emits): only the last block carries the final bit
+    StoredPieces,
+    /// several deflate blocks in one stream: Huffman block, empty stored block of a sync flush, Huffman block ...
+    Flushed,
 }
 
-pub const MODES: [Mode; 6] = [Mode::Raw, Mode::StoredHand, Mode::Stored, Mode::Fixed, Mode::Dynamic, Mode::Best];
+pub const MODES: [Mode; 8] = [Mode::Raw, Mode::StoredHand, Mode::Stored, Mode::Fixed, Mode::Dynamic, Mode::Best, Mode::StoredPieces, Mode::Flushed];
 
 fn with_flags(data: &[u8], flags: u32) -> Vec<u8> {
     let mut c = CompressorOxide::new(flags);
@@ -32,12 +37,40 @@ fn with_flags(data: &[u8], flags: u32) -> Vec<u8> {
 }
 
 fn stored_by_hand(data: &[u8]) -> Vec<u8> {
+    stored_in_pieces(data, 65535)
+}
+
+/// 2..4 pieces, fed to one compressor with a sync flush behind each but the last
+fn flushed(data: &[u8]) -> Vec<u8> {
+    let mut c = CompressorOxide::new(create_comp_flags_from_zip_params(6, -15, 0));
+    let mut out = vec![0u8; data.len() + data.len() / 2 + 512];
+    let pieces = 2 + data.len() % 3;
+    let step = data.len() / pieces + 1;
+    let (mut pos, mut written_total) = (0usize, 0usize);
+    loop {
+        let end = (pos + step).min(data.len());
+        let last = end == data.len();
+        let (status, consumed, written) = compress(&mut c, &data[pos..end], &mut out[written_total..], if last { TDEFLFlush::Finish } else { TDEFLFlush::Sync });
+        assert!(status == TDEFLStatus::Done || status == TDEFLStatus::Okay, "miniz_oxide failed");
+        assert_eq!(consumed, end - pos);
+        written_total += written;
+        pos = end;
+        if last {
+            assert_eq!(status, TDEFLStatus::Done, "miniz_oxide did not finish");
+            break;
+        }
+    }
+    out.truncate(written_total);
+    out
+}
+
+fn stored_in_pieces(data: &[u8], piece: usize) -> Vec<u8> {
     let mut out = Vec::new();
     if data.is_empty() {
         out.extend_from_slice(&[1, 0, 0, 0xff, 0xff]);
         return out;
     }
-    let chunks: Vec<&[u8]> = data.chunks(65535).collect();
+    let chunks: Vec<&[u8]> = data.chunks(piece).collect();
     for (i, c) in chunks.iter().enumerate() {
         out.push(if i + 1 == chunks.len() { 1 } else { 0 });
         let l = c.len() as u16;
@@ -57,6 +90,9 @@ pub fn deflate(data: &[u8], mode: Mode) -> Vec<u8> {
         Mode::Fixed => with_flags(data, create_comp_flags_from_zip_params(6, -15, 0) | deflate_flags::TDEFL_FORCE_ALL_STATIC_BLOCKS),
         Mode::Dynamic => with_flags(data, create_comp_flags_from_zip_params(6, -15, 0)),
         Mode::Best => with_flags(data, create_comp_flags_from_zip_params(9, -15, 0)),
+        // piece length 1..=500, a function of the data so that equal data gives equal bytes
+        Mode::StoredPieces => stored_in_pieces(data, 1 + (data.len() * 7 + data.first().copied().unwrap_or(0) as usize) % 500),
+        Mode::Flushed => flushed(data),
     }
 }
 
